@@ -598,6 +598,72 @@ int main(int argc, char** argv) {
       if (c == 0) ctx.sample("C20", "factory event log of one round checked offline: once per name, no overlap, on the loading thread, never for UTC/fixed names");
     });
   }
+  if (mode == "cold") {
+    // Cold start: the very first cctz calls of a process are made concurrently (function-local statics, lazily
+    // created map and mutexes). One fresh grandchild process per round; this worker itself never calls cctz.
+    long rounds = a.getl("rounds", 100);
+    return sup::supervise(rounds, opt, [&](long c, sup::Ctx& ctx) {
+      int k = (c % 3 == 0) ? 2 : (c % 3 == 1 ? 4 : 16);
+      ctx.set_case("class=cold op=first-calls round=%ld k=%d tsan=%d", c, k, tsan ? 1 : 0);
+      fflush(nullptr);
+      pid_t pid = fork();
+      if (pid == 0) {
+        const ZBytes& zb = g_z[static_cast<size_t>(c) % g_z.size()];
+        zsrc::put("V/C/cold/z", zb.bytes);
+        zsrc::st().frozen.store(true);
+        Barrier bar(k);
+        std::vector<std::thread> th;
+        std::vector<cctz::time_zone> utcs(static_cast<size_t>(k)), loaded(static_cast<size_t>(k));
+        std::vector<int> bad(static_cast<size_t>(k), 0);
+        for (int ti = 0; ti < k; ++ti) {
+          th.emplace_back([&, ti]() {
+            bar.wait();
+            switch ((ti + c) % 5) {
+              case 0: utcs[ti] = cctz::utc_time_zone(); break;
+              case 1: utcs[ti] = cctz::fixed_time_zone(cctz::seconds(0)); break;
+              case 2: {
+                cctz::time_zone d;
+                if (d.lookup(mk(0)).offset != 0 || d.name() != "UTC") bad[ti] = 1;
+                utcs[ti] = cctz::utc_time_zone();
+                break;
+              }
+              case 3: {
+                cctz::time_zone l = cctz::local_time_zone();
+                (void)l;
+                utcs[ti] = cctz::utc_time_zone();
+                break;
+              }
+              default: break;
+            }
+            if (!cctz::load_time_zone("V/C/cold/z", &loaded[ti])) bad[ti] = 2;
+            if (cctz::fixed_time_zone(cctz::seconds(3600 * (ti % 3 + 1))).lookup(mk(0)).offset != 3600 * (ti % 3 + 1)) bad[ti] = 3;
+            if ((ti + c) % 5 == 4) utcs[ti] = cctz::utc_time_zone();
+          });
+        }
+        for (auto& t : th) t.join();
+        int rc = 0;
+        for (int ti = 0; ti < k; ++ti) {
+          if (bad[ti]) rc = 10 + bad[ti];
+          if (!(utcs[ti] == cctz::utc_time_zone()) || utcs[ti].name() != "UTC") rc = 20;
+          if (!(loaded[ti] == loaded[0])) rc = 21;
+          if (query(loaded[ti], zb, ti % kQueries) != query(loaded[0], zb, ti % kQueries)) rc = 22;
+        }
+        fflush(nullptr);
+        _exit(rc);
+      }
+      int st = 0;
+      waitpid(pid, &st, 0);
+      ctx.stat("C13.evaluations", static_cast<uint64_t>(k) * 4);
+      ctx.stat("C13.cold_start_rounds");
+      ctx.stat("C13.distinct_nontrivial");
+      if (tsan) ctx.stat("C13.rounds_under_tsan");
+      if (!WIFEXITED(st) || WEXITSTATUS(st) != 0) {
+        // exit code 66 is ThreadSanitizer's "reports were printed" status: the report itself is read from the log
+        if (WIFEXITED(st) && WEXITSTATUS(st) == 66) return;
+        ctx.viol("C13", "cold-start-result-differs", "round=" + std::to_string(c) + " k=" + std::to_string(k) + " child status=" + std::to_string(st));
+      }
+    });
+  }
   // schedule enumeration
   int kmax = static_cast<int>(a.getl("kmax", 3));
   std::vector<Program> ps = programs(kmax);
